@@ -138,15 +138,14 @@ impl TableBuilder for PostgresQueryBuilder {
                     let first = column_def.types.is_none();
 
                     column_def.spec.iter().fold(first, |first, column_spec| {
-                        if !first
-                            && !matches!(
-                                column_spec,
-                                ColumnSpec::AutoIncrement
-                                    | ColumnSpec::Generated { .. }
-                                    | ColumnSpec::Using(_)
-                                    | ColumnSpec::Comment(_)
-                            )
-                        {
+                        // specifications that write no ALTER TABLE action of their own
+                        let writes_nothing = matches!(
+                            column_spec,
+                            ColumnSpec::AutoIncrement
+                                | ColumnSpec::Generated { .. }
+                                | ColumnSpec::Comment(_)
+                        );
+                        if !first && !writes_nothing && !matches!(column_spec, ColumnSpec::Using(_)) {
                             write!(sql, ", ").unwrap();
                         }
                         match column_spec {
@@ -189,7 +188,7 @@ impl TableBuilder for PostgresQueryBuilder {
                                 QueryBuilder::prepare_simple_expr(self, expr, sql);
                             }
                         }
-                        false
+                        first && writes_nothing
                     });
                 }
                 TableAlterOption::RenameColumn(from_name, to_name) => {
